@@ -6,7 +6,10 @@ package world
 import (
 	"encoding/json"
 	"fmt"
+	codectypes "github.com/cosmos/cosmos-sdk/codec/types"
+	"github.com/cosmos/cosmos-sdk/crypto/keys/ed25519"
 	"github.com/cosmos/cosmos-sdk/types/address"
+	stakingkeeper "github.com/cosmos/cosmos-sdk/x/staking/keeper"
 	"strings"
 	"time"
 
@@ -53,19 +56,22 @@ type AssetCfg struct {
 // Config fixes everything a world is built from. Two worlds with equal Config
 // are byte-identical (asserted by the engine at start-up).
 type Config struct {
-	NVals, NDels   int
-	UnbondingTime  time.Duration
-	TakeInterval   time.Duration
-	RewardDelay    time.Duration
-	LastTakeClaim  time.Duration // offset from Epoch; <0 => zero time
-	Assets         []AssetCfg
-	DelFunds       map[string]string // per delegator, per denom
-	NativeStake    int64             // genesis native tokens per validator
-	CommunityTax   string
-	MaxValidators  uint32
-	FullPipeline   bool     // block boundary = ModuleManager End/BeginBlock, slash = StakingKeeper.Slash
-	ExtraNativeDel []int64  // additional genesis native stake multipliers (unused when nil)
-	ExtraDenoms    []string // denoms whose balances snapshots read even when no asset record / queue entry names them
+	NVals, NDels int
+	// UpperCaseValidator: an extra validator (index NVals) registered through x/staking's MsgCreateValidator under the
+	// upper-case spelling of its operator address (module-only worlds)
+	UpperCaseValidator bool
+	UnbondingTime      time.Duration
+	TakeInterval       time.Duration
+	RewardDelay        time.Duration
+	LastTakeClaim      time.Duration // offset from Epoch; <0 => zero time
+	Assets             []AssetCfg
+	DelFunds           map[string]string // per delegator, per denom
+	NativeStake        int64             // genesis native tokens per validator
+	CommunityTax       string
+	MaxValidators      uint32
+	FullPipeline       bool     // block boundary = ModuleManager End/BeginBlock, slash = StakingKeeper.Slash
+	ExtraNativeDel     []int64  // additional genesis native stake multipliers (unused when nil)
+	ExtraDenoms        []string // denoms whose balances snapshots read even when no asset record / queue entry names them
 }
 
 // DefaultConfig is the module-only world used by most properties.
@@ -301,6 +307,27 @@ func New(cfg Config) *World {
 		w.Cons = append(w.Cons, sdk.ConsAddress(pk.Address()))
 		// genesis-bonded validators have no signing info; BeginBlock would fail without it.
 		must(app.SlashingKeeper.Hooks().AfterValidatorBonded(ctx, sdk.ConsAddress(pk.Address()), va))
+	}
+	if cfg.UpperCaseValidator {
+		// one more validator, registered through the x/staking message server under the all-upper-case spelling of its operator
+		// address: x/staking keeps the message text as OperatorAddress (bech32 is case-insensitive), every byte-keyed index
+		// agrees with the lower-case spelling, string comparisons do not
+		pk := ed25519.GenPrivKeyFromSecret([]byte("verif-val-upper")).PubKey()
+		va := sdk.ValAddress(w.Out)
+		pkAny, err := codectypes.NewAnyWithValue(pk)
+		must(err)
+		msg := &stakingtypes.MsgCreateValidator{
+			Description:       stakingtypes.NewDescription("upper", "", "", "", ""),
+			Commission:        stakingtypes.NewCommissionRates(math.LegacyZeroDec(), math.LegacyOneDec(), math.LegacyOneDec()),
+			MinSelfDelegation: math.OneInt(),
+			ValidatorAddress:  strings.ToUpper(va.String()),
+			Pubkey:            pkAny,
+			Value:             sdk.NewCoin("stake", math.NewInt(cfg.NativeStake)),
+		}
+		_, err = stakingkeeper.NewMsgServerImpl(app.StakingKeeper).CreateValidator(ctx, msg)
+		must(err)
+		w.Vals = append(w.Vals, va)
+		w.Cons = append(w.Cons, sdk.ConsAddress(pk.Address()))
 	}
 	w.Auth = app.AllianceKeeper.GetAuthority()
 	w.ModAddr = authtypes.NewModuleAddress(alliancetypes.ModuleName)
